@@ -297,6 +297,15 @@ func coqBytes(s string) string {
 	return "[" + strings.Join(parts, "; ") + "]"
 }
 
+// repoRoot is the tree under verification: /repo, or $VERIF_REPO (a scratch copy used when
+// evaluating seeded changes without touching /repo).
+func repoRoot() string {
+	if d := os.Getenv("VERIF_REPO"); d != "" {
+		return d
+	}
+	return "/repo"
+}
+
 const genHeader = "(* GENERATED by harness/cmd/gen from /repo's working tree. Do not edit. *)\nFrom V Require Import lib.Base.\nLocal Open Scope N_scope.\n\n"
 
 func main() {
